@@ -391,7 +391,7 @@ def run(scn: Dict[str, Any]) -> TcpRun:
 
 
 def _run(scn, cfg, out, SwitcherType1Api, SwitcherType2Api, SwitcherBreezeRemote):
-    with SimContext(cfg.get("sched", 0), cfg.get("epoch0", 1_600_000_000), cfg.get("tz")) as ctx:
+    with SimContext(cfg.get("sched", 0), cfg.get("epoch0", 1_600_000_000), cfg.get("tz"), tz_form=cfg.get("tz_form")) as ctx:
         sim = ctx.sim
         out.sim = sim
         for i, d in enumerate(cfg["devices"]):
